@@ -60,6 +60,10 @@ func (c *Ctx) genRefinements(ct *Contract) ([]*FuncVC, []string) {
 		rc := *ct
 		rc.Key = fk
 		rc.IsIface = false
+		if cc := c.contracts[fk]; cc != nil {
+			// loop annotations come from the implementation's own contract
+			rc.LoopInv, rc.LoopDec, rc.LoopStep = cc.LoopInv, cc.LoopDec, cc.LoopStep
+		}
 		vc := c.genFunc(cd.fn, &rc, c.houdini(cd.fn, &rc, c.workDir()))
 		vc.Key = fk + "~refines~" + ifaceName + "." + method
 		for _, o := range vc.Obls {
